@@ -279,6 +279,29 @@ Definition h_client_credentials (q : freq) : prog :=
     | Some c => save_token_then (fl_id c) None false (fun t => Ret (ROkToken (ft_id t) None))
     end).
 
+(* RFC 7523 JWT-bearer grant: the issuer's client is looked up twice (for the key, then for the grant), the assertion's own
+   validity is the request flag, only c1 is registered for the grant type; no refresh token is issued *)
+Definition client_may_jwt (c : fclient) : bool := String.eqb (fl_id c) "c1".
+Definition h_jwt_bearer (q : freq) : prog :=
+  cb_query_client (q_client q) (fun v1 =>
+    match v1 with
+    | VClient (Some _) =>
+        if q_flag q then Ret (RErr "invalid_grant") else
+        cb_query_client (q_client q) (fun v2 =>
+          match v2 with
+          | VClient (Some c) =>
+              if negb (client_may_jwt c) then Ret (RErr "unauthorized_client") else
+              match q_user q with
+              | Some u =>
+                  Cb "authenticate_user" (fun s => (s, VBool true)) (fun _ =>
+                    save_token_then (fl_id c) (Some u) false (fun t => Ret (ROkToken (ft_id t) None)))
+              | None => save_token_then (fl_id c) None false (fun t => Ret (ROkToken (ft_id t) None))
+              end
+          | _ => Ret (RErr "invalid_grant")
+          end)
+    | _ => Ret (RErr "invalid_grant")
+    end).
+
 Definition h_device_authorize (q : freq) : prog :=
   cb_query_client (q_client q) (fun v =>
     match client_ok q v with
@@ -421,6 +444,7 @@ Definition handler (q : freq) : prog :=
   else if String.eqb k "decide" then h_decide q
   else if String.eqb k "poll" then h_poll q
   else if String.eqb k "revoke" then h_revoke q
+  else if String.eqb k "jwt_bearer" then h_jwt_bearer q
   else if String.eqb k "o1_initiate" then h1_initiate q
   else if String.eqb k "o1_authorize" then h1_authorize q
   else if String.eqb k "o1_exchange" then h1_exchange q
